@@ -510,6 +510,10 @@ var s2programs = []string{
 	"[Int == Int, Kernel == Obj, [Comparable, Kernel, Iterable, JSON, Diamond, Num, Nil, Err, ValueErr, Obj, Range, Map]@{|pr| pr == pr}, Int.keys.len, Arr.S.len, Obj.items.len]",
 	// strings handed out by the interpreter-wide symbol table used as values: compared, hashed as map keys, printed
 	"k := \"zz_c20_a := 1; zz_c20_c := 2\".evalEnv.keys; [k[0] == \"zz_c20_a\", %{k[1]: 1}[k[1]], k[0] + k[1], k.S]",
+	// errors raised by built-in code and caught: exhausted built-in iterators asked again, failing built-ins, the `_` object
+	// (an error object kept by the interpreter and handed to several evaluations would be written by each of them)
+	"it := [1]._iter; it.next; [nil.try.{|u| it.next}.err.msg, nil.try.{|u| (1:1)._iter.next}.err.msg, nil.try.{|u| \"\"._iter.next}.err.msg, nil.try.{|u| {}._iter.next}.err.msg, nil.try.{|u| %{}._iter.next}.err.msg]",
+	"[nil.try.{|u| 1 / 0}.err.msg, nil.try.{|u| nil.zz_c20_nope}.err.msg, nil.try.{|u| _}.err.msg, nil.try.{|u| [1].withI.{|w| w.next; w.next}}.err.msg, nil.try.{|u| zz_c20_undefined}.err.msg]",
 }
 
 func genS2(thorough bool, emit func(tcase)) {
